@@ -133,6 +133,10 @@ def place(doc: dict, position: str, text: str) -> dict:
     elif position == "request_media_type":
         c = d["paths"]["/op2/pets"]["post"]["requestBody"]["content"]
         c["application/x-" + text] = c.pop("application/json")
+    elif position == "response_media_type_second":
+        # two content types on one response: the generated handler compares the Content-Type header with literals
+        get["responses"]["200"]["content"]["text/x-" + text] = {"schema": {"type": "string"}}
+        get["responses"]["200"]["content"]["text/plain"] = {"schema": {"type": "string"}}   # (the last one is the fallback branch)
     elif position == "response_media_type":
         c = get["responses"]["200"]["content"]
         c["application/json; note=" + text] = c.pop("application/json")
@@ -145,7 +149,7 @@ POSITIONS = ["info_title", "info_description", "schema_description_object", "sch
              "schema_description_map", "schema_description_union", "property_description", "property_name", "enum_value", "string_default",
              "param_name_query", "param_name_header", "param_description", "operation_summary", "operation_description", "tag",
              "response_description", "error_response_description", "discriminator_value", "server_url",
-             "request_body_description", "info_version", "operation_id", "request_media_type", "response_media_type"]
+             "request_body_description", "info_version", "operation_id", "request_media_type", "response_media_type", "response_media_type_second"]
 
 
 def skeleton(tree: ast.AST) -> str:
